@@ -408,7 +408,12 @@ def run_construct(L, fmt):
 
     def oaw(it, args, kw, node):
         ctx = it.ctx
-        k = sum(1 for e in ctx.events if e['kind'] == 'call' and e['name'] == 'meshes.origin_and_widths')
+        # the direction of a call is the centre coordinate it is given (1: x, 2: y, 3: z) -- not its position in the call sequence
+        cen = kw.get('center', args[2] if len(args) > 2 else None)
+        ks = [d + 1 for d in range(3) if cen is CENS[d]]
+        if len(ks) != 1:
+            raise cx.Unsupported('origin_and_widths called with a centre that is none of the three centre coordinates')
+        k = ks[0]
         ok = ctx.branch(ctx.fresh_bool(f'dir{k}_found'), 'found')
         info = cx.Opaque(f'info{k}')
         if not ok:
@@ -453,14 +458,37 @@ def task_construct():
             def calls(r):
                 return [e for e in r.events if e['kind'] == 'call' and e['name'] == 'meshes.origin_and_widths']
 
+            from .cxutil import UNRECOGNISED
+
+            def by_direction(r):
+                """the effective parameters of the origin_and_widths call of each direction; a direction is identified by the centre
+                coordinate it receives (not by call order or by positional / keyword form)"""
+                from pyvc import intake
+                params = [a.arg for a in intake.func('meshes.origin_and_widths')[0].args.args]
+                cs = calls(r)
+                out = {}
+                for c in cs:
+                    if len(c['args']) > len(params) or any(p_ in c['kwargs'] for p_ in params[:len(c['args'])]):
+                        return None
+                    kw = dict(zip(params, c['args']))
+                    kw.update(c['kwargs'])
+                    ds = [d for d in range(3) if kw.get('center') is CENS[d]]
+                    if len(ds) != 1 or ds[0] in out:
+                        return None
+                    out[ds[0]] = kw
+                return out if len(out) == 3 and len(cs) == 3 else None
+
             def three_calls(r):
                 cs = calls(r)
                 if len(cs) != 3:
                     return False
+                bd = by_direction(r)
+                if bd is None:
+                    return UNRECOGNISED('the three origin_and_widths calls cannot be matched to the three centre coordinates')
                 ok = True
-                for d, c in enumerate(cs):
-                    kw = c['kwargs']
-                    ok = ok and not c['args'] and kw.get('raise_error') is False and kw.get('verb') == -1 and kw.get('frequency') is FREQ
+                for d in range(3):
+                    kw = bd[d]
+                    ok = ok and kw.get('raise_error') is False and kw.get('verb') == -1 and kw.get('frequency') is FREQ
                     ok = ok and kw.get('center') is CENS[d] and kw.get('lambda_factor') is LF
                     ok = ok and (kw.get('seasurface') is SEA if d == 2 else 'seasurface' not in kw)
                     got = kw.get('properties')
@@ -471,8 +499,11 @@ def task_construct():
             def routing(r):
                 cs = calls(r)
                 ok = len(cs) == 3
-                for d, c in enumerate(cs[:3]):
-                    kw = c['kwargs']
+                bd = by_direction(r) if ok else None
+                if ok and bd is None:
+                    return UNRECOGNISED('the three origin_and_widths calls cannot be matched to the three centre coordinates')
+                for d in (range(3) if ok else ()):
+                    kw = bd[d]
                     for k in per:
                         if fmt == 'none':
                             want = None if k in ('domain', 'vector') else 'absent'
